@@ -32,7 +32,7 @@ pub fn tables() -> serde_json::Value {
     serde_json::json!({"rust_keywords": rust, "rust_keywords_legal_in_incan": accepted})
 }
 
-pub const POSITIONS: [(&str, &str); 24] = [
+pub const POSITIONS: [(&str, &str); 27] = [
     ("local", "def main() -> None:\n    NAME = 5\n    println(f\"{NAME}\")\n"),
     ("mutlocal", "def main() -> None:\n    mut NAME = 5\n    NAME += 2\n    NAME = NAME * 2\n    println(f\"{NAME}\")\n"),
     ("param", "def f(NAME: int) -> int:\n    return NAME + 1\n\ndef main() -> None:\n    println(f\"{f(2)}\")\n"),
@@ -56,6 +56,10 @@ pub const POSITIONS: [(&str, &str); 24] = [
     ("traitmethod", "trait T:\n    def NAME(self) -> int: ...\n\nmodel M with T:\n    a: int\n\n    def NAME(self) -> int:\n        return self.a\n\ndef main() -> None:\n    m = M(a=2)\n    println(f\"{m.NAME()}\")\n"),
     ("indexassign", "def main() -> None:\n    mut NAME = [1, 2, 3]\n    NAME[0] = 7\n    println(f\"{NAME[0]}\")\n"),
     ("staticmethod", "model M:\n    a: int\n\n    def NAME(x: int) -> int:\n        return x + 1\n\ndef main() -> None:\n    println(f\"{M.NAME(2)}\")\n"),
+    // positions whose output names the identifier itself (reflection, JSON keys): compared after renaming back
+    ("reflectfields", "model M:\n    a: int\n    NAME: int\n\ndef main() -> None:\n    m = M(a=1, NAME=3)\n    for fld in m.__fields__():\n        println(f\"field {fld}\")\n"),
+    ("reflectclass", "class NAME:\n    a: int\n\n    def get(self) -> int:\n        return self.a\n\ndef main() -> None:\n    m = NAME(a=3)\n    println(m.__class_name__())\n"),
+    ("jsonkey", "@derive(Serialize)\nmodel M:\n    a: int\n    NAME: int\n\ndef main() -> None:\n    m = M(a=1, NAME=3)\n    println(json_stringify(m))\n"),
     ("whilevar", "def main() -> None:\n    mut NAME = 0\n    while NAME < 3:\n        NAME = NAME + 1\n    println(f\"{NAME}\")\n"),
 ];
 
@@ -209,7 +213,7 @@ pub fn run(out: &mut Out, tier: &str, seed: u64, _scratch: &str) {
         let baseline_ok = matches!(outcomes[jobs.iter().position(|(p, n)| p == pos && n == "zeta").unwrap_or(0)], Outcome::Ran { code: 0, .. });
         let real = if !baseline_ok {
             format!("baseline-broken {b}")
-        } else if shown == b {
+        } else if shown == b || (["reflectfields", "reflectclass", "jsonkey"].contains(&pos.as_str()) && shown.replace(name.as_str(), "zeta") == b) {
             "same".to_string()
         } else {
             format!("differs {shown}")
